@@ -92,3 +92,20 @@ _m("C18",
    "reflink support of the filesystem; propagation of the primitives' I/O errors is decided under C13.",
    "MIR gate-cut reachability with cleanup alternative + accumulator provenance + decision arms of keyed wrappers",
    "exhaustive static analysis of ordering/count/miss-arm structure in every configuration (necessary conditions)")
+
+_m("C15",
+   "(a) Filesystem-effect inventory against a dependency model table (any call into std::fs / tokio::fs / async_std::fs / "
+   "tempfile / reflink_copy / memmap2 / walkdir / libc that is not modelled is itself a violation): every mutating effect's "
+   "path or handle, expanded interprocedurally through all call sites and struct-field construction sites up to the parameters "
+   "of the public entry points, has one of the allowed shapes (cache/tmp, TempIn(cache/tmp), Content(cache,_) and its parent, "
+   "Bucket(cache,_) and its parent/handle, Child(cache), or the explicit destination of an extraction / target of a link) and "
+   "is rooted at the entry point's cache-directory parameter (first path-like parameter) or explicit destination; process-"
+   "global locations (env::temp_dir, NamedTempFile::new, tempfile(), current_dir) are forbidden. (b) The key reaches a path "
+   "only as HASH_KEY(key) with the digest fed the unchanged argument; content paths depend only on (cache, integrity); every "
+   "bucket is selected by the entry point's string key travelling by identity flow (no trim/case-fold/normalise); no other "
+   "effect path contains a string parameter. (c) The call-graph closure of the read-only API (read*, Reader/SyncReader::*, "
+   "metadata*, exists*, list_sync, index::find*/ls) contains no mutating effect.",
+   "Symlink traversal below the cache root at run time; the system-call-level observation itself; behaviour for particular hostile "
+   "key strings (the rule shows keys are never interpreted, for all strings at once).",
+   "effect inventory + interprocedural provenance expansion + identity/taint value flow + call-graph closure",
+   "exhaustive static analysis; clause (c) is complete modulo the call graph and the model table")
